@@ -7,6 +7,8 @@ import (
 	"net/url"
 	"sort"
 	"strings"
+	"sync"
+	"sync/atomic"
 )
 
 // S7 - response canonical form and minimal writers.
@@ -38,7 +40,10 @@ type rw struct {
 	body        []byte
 	writes      int
 	snap        http.Header // headers as of the first WriteHeader/Write (what a server would send)
+	inner       http.Handler // the wrapped handler to run for THIS exchange (see wrappedOnce)
 }
+
+func (w *rw) innerHandler() http.Handler { return w.inner }
 
 func newRW() *rw { return &rw{h: http.Header{}} }
 
@@ -232,8 +237,49 @@ type wrapper interface {
 func serve(mw wrapper, q Req) Obs {
 	inner := &countingHandler{body: "ok"}
 	w := newRW()
-	mw.Wrap(inner).ServeHTTP(w, q.httpReq())
+	w.inner = inner
+	wrappedOnce(mw).ServeHTTP(w, q.httpReq())
 	return w.obs(inner.calls)
+}
+
+// Realistic use wraps a handler ONCE and reconfigures the middleware later, so the harness does the same:
+// the first exchange through a middleware wraps a dispatching handler (possibly while the middleware is still
+// a passthrough one) and every later exchange goes through that same wrapped handler, whatever Reconfigure /
+// SetDebug calls happened in between. The handler to run for an exchange travels in the harness's own
+// ResponseWriter (the middleware must hand the very same writer to the wrapped handler - C11).
+// (Lesson of seeded change C11-e: Wrap returning the bare handler while the middleware is passthrough.)
+type innerCarrier interface{ innerHandler() http.Handler }
+
+type dispatchHandler struct{}
+
+var dispatchFallbackCalls atomic.Int64
+
+func (dispatchHandler) ServeHTTP(w http.ResponseWriter, r *http.Request) {
+	if c, ok := w.(innerCarrier); ok && c.innerHandler() != nil {
+		c.innerHandler().ServeHTTP(w, r)
+		return
+	}
+	// the writer is not the harness's own: a wrapped writer reached the handler (C11 reports that); keep going
+	dispatchFallbackCalls.Add(1)
+	w.Write([]byte("ok"))
+}
+
+var (
+	wrapCache sync.Map // wrapper -> http.Handler
+	wrapCount atomic.Int64
+)
+
+func wrappedOnce(mw wrapper) http.Handler {
+	if h, ok := wrapCache.Load(mw); ok {
+		return h.(http.Handler)
+	}
+	h := mw.Wrap(dispatchHandler{})
+	if wrapCount.Add(1) > 1<<14 { // bounded: checks create millions of short-lived middlewares
+		wrapCache.Clear()
+		wrapCount.Store(0)
+	}
+	actual, _ := wrapCache.LoadOrStore(mw, h)
+	return actual.(http.Handler)
 }
 
 func preflightReq(origin, acrm string, acrh []string, pna bool) Req {
